@@ -374,7 +374,9 @@ func c11Custom(ctx *Ctx) *Extra {
 			ex.Funcs = append(ex.Funcs, f)
 		}
 	}
-	names := []string{"srgb.From16Bit", "srgb.To16Bit", "adobergb.From16Bit", "adobergb.To16Bit", "prophotorgb.From16Bit", "prophotorgb.To16Bit", "displayp3.LineariseColor", "displayp3.EncodeColor"}
+	names := []string{"srgb.From16Bit", "srgb.To16Bit", "adobergb.From16Bit", "adobergb.To16Bit", "prophotorgb.From16Bit", "prophotorgb.To16Bit", "displayp3.LineariseColor", "displayp3.EncodeColor",
+		"ciexyz.AdaptBetweenXYZWhitePoints", "ciexyz.AdaptBetweenXYYWhitePoints", "ciexyz.ToLAB/ColorFromLAB", "srgb XYZ and 8-bit conversions", "adobergb XYZ and 8-bit conversions", "prophotorgb XYZ and 8-bit conversions", "displayp3 XYZ and colour constructors",
+		"pngmeta.Load", "jpegmeta.Load", "webpmeta.Load", "autometa.Load"}
 	sort.Slice(logs, func(i, j int) bool { return logs[i].label < logs[j].label })
 	for _, lg := range logs {
 		var scs []*hbScenario
@@ -447,10 +449,10 @@ func c11Custom(ctx *Ctx) *Extra {
 
 func init() {
 	Register(&Spec{
-		ID:    "C11",
-		Level: "other",
+		ID:          "C11",
+		Level:       "other",
 		Explanation: "happens-before encoding over the executor's access logs: the symbolic executor runs the real code of every lazily initialised function (srgb/adobergb/prophotorgb From16Bit and To16Bit, Display P3's LineariseColor/EncodeColor through them) once from the pristine state and once more, and the real linear.TransformImageColor with 3 worker goroutines, logging every load/store (cell identity), sync.Once / WaitGroup / go events. From these logs the check builds, per scenario of 2-3 concurrent callers, an SMT problem over integer timestamps (a sequentially consistent interleaving consistent with what each caller observed) and asks for a pair of conflicting plain accesses unordered by happens-before; unsat = no data race in any interleaving of that scenario. A model is replayed in a fresh process under the Go race detector before it is reported",
-		Custom: c11Custom,
+		Custom:      c11Custom,
 		Assumptions: []string{"metadata loaders and conversion helpers are covered only through the worker-goroutine scenario of TransformImageColor and by the executor's observation that they write no package-level state (not a solver query)"},
 	})
 }
